@@ -368,13 +368,14 @@ func c08(r *Report) {
 		emit := r.Use("h2", "outputBuffer.emitEligibleFrames")
 		qf := w.Named("h2", "queuedFrame")
 		for _, f := range w.Funcs("h2") {
+			for _, sp := range sendPoints(f) {
+				if ch, ok := sp.Chan.Type().Underlying().(*types.Chan); ok && qf != nil && types.Identical(ch.Elem(), qf) {
+					r.Sites++
+					r.Decide("callgraph", "send on the ordered output channel in "+fnName(f), f == emit, "only the emit step enqueues output", "frames are put on the output channel outside emitEligibleFrames: flow control and per-stream order are bypassed", sp.Instr.Pos())
+				}
+			}
 			for _, in := range instrs(f) {
 				switch x := in.(type) {
-				case *ssa.Send:
-					if ch, ok := x.Chan.Type().Underlying().(*types.Chan); ok && qf != nil && types.Identical(ch.Elem(), qf) {
-						r.Sites++
-						r.Decide("callgraph", "send on the ordered output channel in "+fnName(f), f == emit, "only the emit step enqueues output", "frames are put on the output channel outside emitEligibleFrames: flow control and per-stream order are bypassed", x.Pos())
-					}
 				case *ssa.Select:
 					for _, s := range x.States {
 						if ch, ok := s.Chan.Type().Underlying().(*types.Chan); ok && qf != nil && types.Identical(ch.Elem(), qf) && s.Dir == types.RecvOnly {
